@@ -237,6 +237,27 @@ func runC08(c *Ctx) {
 				{"md5-wrong", "reject-if-integrity", func(b, k string, body []byte) *drv.Req {
 					return &drv.Req{Method: "PUT", Path: drv.ObjPath(b, k), Body: body, Header: drv.H("Content-MD5", otherMD5)}
 				}},
+				{"md5-case-flipped", "reject-if-integrity", func(b, k string, body []byte) *drv.Req {
+					// base64 is case sensitive: the right digest with the case of its letters flipped names another one
+					good := drv.MD5B64(body)
+					flipped := []byte(good)
+					for i, c := range flipped {
+						if i >= 21 {
+							// the last symbol carries only two bits of the digest: left alone, so the flipped text stays canonical
+							break
+						}
+						switch {
+						case c >= 'a' && c <= 'z':
+							flipped[i] = c - 32
+						case c >= 'A' && c <= 'Z':
+							flipped[i] = c + 32
+						}
+					}
+					if d, err := base64.StdEncoding.DecodeString(string(flipped)); err != nil || len(d) != 16 || string(flipped) == good {
+						flipped = []byte(otherMD5)
+					}
+					return &drv.Req{Method: "PUT", Path: drv.ObjPath(b, k), Body: body, Header: drv.H("Content-MD5", string(flipped))}
+				}},
 				{"md5-of-prefix", "reject-if-integrity", func(b, k string, body []byte) *drv.Req {
 					return &drv.Req{Method: "PUT", Path: drv.ObjPath(b, k), Body: body, Header: drv.H("Content-MD5", drv.MD5B64(body[:len(body)-1]))}
 				}},
